@@ -46,7 +46,7 @@ def err_kind(e: BaseException) -> str:
     for pat, k in ERRS:
         if pat in s:
             return k
-    return "other:" + type(e).__name__ + ":" + s[:120]
+    return "other:" + type(e).__name__ + ":" + s[:60] + " ... " + s[-700:]
 
 
 _UID = itertools.count(1000)  # feature names are unique per universe (resolve_feature scans every loaded class)
@@ -138,10 +138,19 @@ def build(u: Dict[str, Any], cf: Cfws, order: Optional[Sequence[int]] = None) ->
     n = len(u["parents"])
     order = list(order) if order is not None else list(range(n))
     out: Dict[int, type] = {}
+
+    def calc(cls: Any, data: Any, features: Any) -> Any:
+        # framework agnostic: a plain {column: values} dict, converted by whichever framework executes the step.  (The
+        # framework named by the FeatureSet's features can differ from the executing one when several are admissible:
+        # Engine.compute deep-copies the plan and a copied set of classes may iterate in another order.)
+        names = sorted(features.get_all_names())
+        F.log_event(ev="begin", group=cls.__name__, features=names)
+        return {nm: [1, 2] for nm in names}
+
     for c in order:
         s = u["classes"][c]
         p = u["parents"][c]
-        extra: Dict[str, Any] = {}
+        extra: Dict[str, Any] = {"calculate_feature": classmethod(calc)}
         frameworks = None
         if s["rule"] == "any":
             extra["compute_framework_rule"] = classmethod(lambda cls: True)
@@ -157,6 +166,27 @@ def build(u: Dict[str, Any], cf: Cfws, order: Optional[Sequence[int]] = None) ->
             extra=extra or None,
         )
     return [out[c] for c in range(n)]
+
+
+def dispose(classes: Sequence[type]) -> None:
+    """unregister generated classes so that FeatureGroup.__subclasses__() (weak references) does not grow without bound:
+    PreFilterPlugins scans every loaded subclass on each run"""
+    for k in classes:
+        try:
+            delattr(F.DYN, k.__name__)
+        except AttributeError:
+            pass
+
+
+_DISPOSED = [0]
+
+
+def maybe_collect(every: int = 100) -> None:
+    import gc
+
+    _DISPOSED[0] += 1
+    if _DISPOSED[0] % every == 0:
+        gc.collect()
 
 
 def creation_orders(ctx: Ctx, parents: Sequence[Optional[int]], k: int) -> List[List[int]]:
@@ -468,7 +498,7 @@ def suite_function_level(ctx: Ctx, cf: Cfws) -> None:
     from mloda.core.prepare.identify_feature_group import IdentifyFeatureGroupClass
     from mloda.core.core.engine import Engine
 
-    n = ctx.budget(1200, 20000)
+    n = ctx.budget(3000, 20000)
     reqs: List[Dict[str, Any]] = []
     checks: List[Tuple[str, Dict[str, Any], Any]] = []
     for k in range(n):
@@ -499,6 +529,7 @@ def suite_function_level(ctx: Ctx, cf: Cfws) -> None:
         if (acc_res.get("ok") != exp_acc) if exp_acc else (acc_res != {"err": "noAccessibleGroups"}):
             ctx.violation("accessible_fn", {"u": u, "pc": pc, "cfws": cfws}, f"accessible plugins {acc_res}, property says {exp_acc}", acc_res, exp_acc)
         if acc is None:
+            dispose(classes)
             continue
         # --- IdentifyFeatureGroupClass on the same mapping in several dict orders
         links = gen_links(ctx)
@@ -543,6 +574,9 @@ def suite_function_level(ctx: Ctx, cf: Cfws) -> None:
             exp_set = [feat["cfw"]] if feat["cfw"] is not None else s_ids
             if r2 != {"ok": exp_set}:
                 ctx.violation("setcfw_fn", {"feature": feat, "cfws": s_ids}, f"feature framework set {r2}, property says {exp_set}", r2, exp_set)
+        del acc, items, orders
+        dispose(classes)
+        maybe_collect()
     outs = ctx.lean.batch(reqs)
     for (suite, case, impl), rq, o in zip(checks, reqs, outs):
         if suite == "accessible_fn":
@@ -609,6 +643,9 @@ def suite_doc_resolve(ctx: Ctx, cf: Cfws) -> None:
             exp = {"r": "none"} if not cands else ({"r": "one", "c": pref[0]} if len(pref) == 1 else {"r": "multiple"})
             if exp != impl:
                 ctx.violation("doc_resolve", metas[-1], f"resolve_feature gives {impl}, preferring subclasses gives {exp}", impl, exp)
+            del r
+        dispose(classes)
+        maybe_collect()
     outs = ctx.lean.batch(reqs)
     for m, i, o in zip(metas, impls, outs):
         ctx.case("doc_resolve", m, i["r"] != "none", outcome=i["r"])
@@ -633,7 +670,7 @@ def read_events(path: str) -> List[Dict[str, Any]]:
 def suite_e2e(ctx: Ctx, cf: Cfws) -> None:
     from mloda.user import mloda
 
-    n = ctx.budget(500, 8000)
+    n = ctx.budget(1200, 8000)
     link_side = F.make_group(F.uniq("LinkSide_"), root_data={"zz_linkside": [0]})  # a class outside every universe
     log = os.path.join(ctx.extra["_tmp"], "events.jsonl")
     os.environ[F.LOG_ENV] = log
@@ -700,6 +737,8 @@ def suite_e2e(ctx: Ctx, cf: Cfws) -> None:
             except Exception as e:
                 out = {"err": err_kind(e)}
             outcomes.append(out)
+            dispose(classes)
+            maybe_collect()
         first = outcomes[0]
         case = {"u": u, "name": name, "feature": feat, "api": api_ids, "pc": pc, "links": links, "patched_discovery": use_patch}
         cmp0 = {k: v for k, v in first.items() if k != "_types"}
